@@ -114,6 +114,21 @@ CLAIMED = {
         note='Trusted: fork() before the history gives a pristine observer; pickling a shallow copy without _ir and run '
              'bookkeeping preserves what the user declared. Known finding KF-C14-stale-run-bookkeeping (loud).',
         ref='§3 C14'),
+    'C15': dict(
+        technique=TECH + 'save/restart/load generations on a simulated durable store with I/O faults; derived and dual '
+                         'definitions judged by a pristine observer process',
+        text='The YAML file is durable storage, clear_frontend_caches() plus a pristine observer process that loads the '
+             'file itself is a restart. Seeded models (flat/two-level, shared operators, edge attributes, definition-dict '
+             'and string declarations) go through 1-4 save -> restart -> load generations, with an injected OSError or '
+             'torn write during a save in fault runs: the recovered model must equal the original (names included), '
+             'generations must be a fixpoint (file text from generation 2), a failed save must leave template and process '
+             'unharmed and the retry must round-trip. On the same machinery: Python-built == YAML-built (L-dual) and a '
+             'template derived via base: + overrides + equation edit dictionary over identifiers that contain one another '
+             '== the explicitly written template, with the base left unchanged (L-inherit).',
+        note='Trusted: the pristine observer (fork before the history), the regex tokenizer that produces the expected '
+             'derived equations. Only L-recover/L-fixpoint/L-torn use what the simulator adds; L-dual/L-inherit ride on '
+             'the same runs. Known finding KF-C15-shared-operator-overrides (R14).',
+        ref='§3 C15'),
     'C19': dict(
         technique=TECH + 'stateful machine on the real DDEHistory vs a pure-Python reference history',
         text='Seeded exploration of update/query/caller-mutation/allocation-fault histories on the real DDEHistory '
@@ -126,7 +141,7 @@ CLAIMED = {
 }
 
 _P = 'check under construction in this session (planned as claimed, see DESIGN §0/§3); not decided yet'
-PENDING = {k: _P for k in ['C15']}
+PENDING = {}
 
 NA = {
     'C01': 'pure function of (model, state, parameters): no schedule, clock, fault or history in the statement; '
